@@ -76,13 +76,20 @@ Definition spec_ok_ls (root keepdir : bytes) (bd : option bytes) (ents : list di
 
 (* the observation of one run of robsd-ls: exit status and stdout bytes.
    [readdir = None]: the root could not be read, the command must fail
-   without output *)
-Definition spec_ok_stdout (root keepdir : bytes) (skipB : bool) (lock : option bytes)
+   without output.  [excluded]: the path, as robsd-ls prints it, of the
+   directory that must be omitted (None: nothing to omit) *)
+Definition spec_ok_stdout_named (root keepdir : bytes) (excluded : option bytes)
     (readdir : option (list dirent)) (exit : N) (out : bytes) : bool :=
   match readdir with
   | None => negb (exit =? 0) && beq out []
   | Some ents =>
       let lines := getlines out in
       (exit =? 0) && beq (unlines lines) out &&
-      spec_ok_ls root keepdir (if skipB then running_builddir lock else None) ents lines
+      spec_ok_ls root keepdir excluded ents lines
   end.
+
+(* ... where the directory to omit is the one whose printed path is the first
+   line of the lock file, byte for byte *)
+Definition spec_ok_stdout (root keepdir : bytes) (skipB : bool) (lock : option bytes)
+    (readdir : option (list dirent)) (exit : N) (out : bytes) : bool :=
+  spec_ok_stdout_named root keepdir (if skipB then running_builddir lock else None) readdir exit out.
